@@ -4,6 +4,10 @@
   all values of the stated domain and over an arbitrary trailing stream `rest` that must be left
   unread (so objects can be read back to back).
 -/
+import BtcVerif.Props.GuardPins.P_varint
+import BtcVerif.Props.GuardPins.P_blocks_blockheader
+import BtcVerif.Props.GuardPins.P_blocks
+import BtcVerif.Props.GuardPins.P_tx
 import BtcVerif.Proofs.Tx
 import BtcVerif.Proofs.Block
 import BtcVerif.Proofs.NoPanic
